@@ -757,7 +757,8 @@ func (m *machine) Step(op Op) error {
 		if n == o {
 			m.st.Count("merge.self")
 		}
-		// nested containers of the result may be the originals or fresh copies
+		// nested containers taken over from the RECEIVER may be the originals or fresh copies (C09 allows
+		// sharing, the pinned code copies); those of the ARGUMENT are held by reference like any stored value
 		res := &mnode{fields: map[string]mval{}}
 		h.bind(res, r)
 		if len(h.objects) < maxLiveObjects {
@@ -775,6 +776,14 @@ func (m *machine) Step(op Op) error {
 				return errf("step %d: Merge result lacks key %+q", m.step, k)
 			}
 			got := r.Get(k)
+			if _, fromArg := o.fields[k]; fromArg {
+				// the argument's value is what the result holds: for a container that is the container itself
+				if got != v.ref.impl {
+					return errf("step %d: Merge result field %+q does not hold the argument's container but %s", m.step, k, showAny(got))
+				}
+				res.fields[k] = v
+				continue
+			}
 			nv, err := m.adopt(v, got)
 			if err != nil {
 				return errf("step %d: Merge result field %+q: %v", m.step, k, err)
